@@ -35,7 +35,13 @@ def gen(rng, n):
         for k, loc in enumerate(locs):
             date = rng.choice(scen.DATES + [None, None])
             name = fam[k] if k < len(fam) else 'n%d' % k
-            tree += scen.entry(td, name, loc, date, rng.choice(['f', 'f', 'd']))
+            override = None
+            if rng.random() < 0.2:
+                # a second Path= line naming another place (an info file edited by hand or written by another tool): the first one counts
+                decoy = rng.choice([l for l in LOCS if l != '/'])
+                first = scen.TI % (scen.quote(loc), date) if date is not None else '[Trash Info]\nPath=%s\n' % scen.quote(loc)
+                override = first + 'Path=%s\n' % scen.quote(decoy)
+            tree += scen.entry(td, name, loc, date, rng.choice(['f', 'f', 'd']), info_override=override)
             ents.append({'name': name, 'loc': loc, 'date': date, 'k': k})
         scope = rng.choice(['/', '/a', '/a/foo', '/a/foobar', '/a/fo', '/b', '/a/', 'a', '.', '..', '/c/d', None])
         cwd = rng.choice(['/', '/a', '/a/foo']) if scope in (None, 'a', '.', '..') else '/'
